@@ -872,7 +872,7 @@ fn generate_scalars(a: &Args) -> i32 {
         "+9223372036854775807", "+9223372036854775808", "+18446744073709551615", "+18446744073709551616", "-9223372036854775809", "+170141183460469231731687303715884105728",
         "+0xFFFFFFFFFFFFFFFF", "0xFFFFFFFFFFFFFFFF", "+0x10000000000000000", "-0x8000000000000000", "-0x8000000000000001", "+0o1777777777777777777777", "+0b1111111111111111111111111111111111111111111111111111111111111111",
         "+0x7FFFFFFFFFFFFFFF", "+0x8000000000000000", "018446744073709551615", "+018446744073709551615",
-        "0x1F", "0X1f", "0o17", "0b101", "007", "00", "0o8", "0x", "1_000", "_1", "1_", "+5", "- 5", "0x-1", "-0x80", "0o400000000000000000000000000000000000000000000",
+        "-007", "-00", "-0123", "-0_1", "-0010", "-08", "+007", "-0x1F", "-0o17", "-0b11", "0x1F", "0X1f", "0o17", "0b101", "007", "00", "0o8", "0x", "1_000", "_1", "1_", "+5", "- 5", "0x-1", "-0x80", "0o400000000000000000000000000000000000000000000",
         "1.5", "-1.5", "1.", ".5", "1e3", "1E-3", "1e", ".inf", "-.INF", "+.Inf", ".nan", ".NaN", "inf", "infinity", "nan", "1.00000005960464477540", "1e400", "4.9e-324",
         "a", "é", "ab", "hello world", "<<", "-", "123abc", "AQID", "aGVsbG8=", "AB==", "/w==", "=AAA", "A=AA", "==A=", "QUJD=A==", "A===", "QQ==QQ==", "QUJD", "QUI=", " 12 ", "12 ", "\u{a0}12",
     ];
